@@ -279,7 +279,7 @@ def run(tier):
     if tier == "quick":
         explore.run(spec, report, tier, 2, 100000, 800)
     else:
-        explore.run(spec, report, tier, 3, 2000000, 9000)
+        explore.run(spec, report, tier, 3, 2000000, 3600)
     e1check.confirm_all(spec, report)
     part_b = run_part_b(report, tier)
     cov = report.coverage
